@@ -736,6 +736,7 @@ fn update_stages(
                     assert(reach_top(module, function, handle_index(*g)));
                     assert(sound(gs1, global_stages@, stage, tf)) by {
                         assert(forall|y: u32| (0u32 | y) == y) by(bit_vector);
+                        assert(forall|x: u32, y: u32| #[trigger] (x | y) == (y | x)) by(bit_vector); // the union may be written either way round
                         if global.name is Some { assert(tf(global.name->0)); }
                     }
                     assert(mono(gs1, global_stages@));
